@@ -30,7 +30,8 @@ RULE = (
     "JSON / pickle / JSONFormatter; a plan of 0-3 re-deliveries, each a retry (SimpleRetryMiddleware) or a requeue "
     "(Context.requeue), through the real kicker, formatter bytes and Receiver.callback. Oracle: the labels seen by a "
     "pre_execute middleware, by Context inside the task and in the stored result equal the sent ones in value and type on "
-    "every delivery. (2) 'kicker_histories': a RuleBasedStateMachine over one broker with two tasks, a shared task (AsyncSharedBroker with a default broker) and a second broker: "
+    "every delivery, and carry no label that was not given to that call (a second call of the same task with labels of its "
+    "own goes through the same broker and middleware instances in a third of the cases). (2) 'kicker_histories': a RuleBasedStateMachine over one broker with two tasks, a shared task (AsyncSharedBroker with a default broker) and a second broker: "
     "rules new_kicker / with_labels / with_task_id / with_broker / kiq on a kicker / kiq directly on the task / "
     "schedule-style kicker built by hand, in any order; model: declared labels are constants, a send carries declared "
     "+ that kicker's own labels, id and broker only. Invariant after every rule: task.labels equals the declared "
@@ -91,6 +92,9 @@ def roundtrips() -> Any:
         "decl": LABELS, "extra": LABELS,
         "codec": st.sampled_from(["json", "json", "pickle", "jsonfmt"]),
         "plan": st.lists(st.sampled_from(["retry", "requeue"]), max_size=3),
+        # a second call of the same task through the same broker / middleware instances, with labels of its own:
+        # whatever one call carried must not show up in the other
+        "second": st.one_of(st.none(), st.fixed_dictionaries({"extra": LABELS, "plan": st.lists(st.sampled_from(["retry", "requeue"]), max_size=2)})),
     })
 
 
@@ -110,11 +114,13 @@ class QB(AsyncBroker):
 
 def run_roundtrip(c: Dict[str, Any]) -> Outcome:
     out = Outcome()
-    out.clauses_checked = ["C09.a"] + (["C09.b"] if "retry" in c["plan"] else []) + (["C09.c"] if "requeue" in c["plan"] else [])
     decl = {k: dec(v) for k, v in c["decl"].items()}
-    extra = {k: dec(v) for k, v in c["extra"].items()}
-    want = {**decl, **extra}
-    plan = list(c["plan"])
+    calls = [{"extra": {k: dec(v) for k, v in c["extra"].items()}, "plan": list(c["plan"])}]
+    if c.get("second"):
+        calls.append({"extra": {k: dec(v) for k, v in c["second"]["extra"].items()}, "plan": list(c["second"]["plan"])})
+    allplans = [x for cl in calls for x in cl["plan"]]
+    out.clauses_checked = ["C09.a"] + (["C09.b"] if "retry" in allplans else []) + (["C09.c"] if "requeue" in allplans else []) + (["C09.d"] if len(calls) > 1 else [])
+    SYSTEM = {"_retries", "X-Taskiq-requeue"}
 
     async def go() -> Any:
         b = QB()
@@ -124,20 +130,22 @@ def run_roundtrip(c: Dict[str, Any]) -> Outcome:
         if c["codec"] == "jsonfmt":
             b.formatter = JSONFormatter()
         seen: List[Any] = []
+        runs: Dict[str, int] = {}
 
         class MW(TaskiqMiddleware):
             def pre_execute(self, message: Any) -> Any:
-                seen.append(("middleware", runs[0] + 1, dict(message.labels)))
+                seen.append(("middleware", message.task_id, runs.get(message.task_id, 0) + 1, dict(message.labels)))
                 return message
 
         b.add_middlewares(MW(), SimpleRetryMiddleware(default_retry_count=10, default_retry_label=True, no_result_on_retry=False))
-        runs = [0]
 
         async def t(ctx: Context = TaskiqDepends()) -> Any:
-            runs[0] += 1
-            seen.append(("context", runs[0], dict(ctx.message.labels)))
-            if runs[0] <= len(plan):
-                if plan[runs[0] - 1] == "retry":
+            tid = ctx.message.task_id
+            runs[tid] = runs.get(tid, 0) + 1
+            seen.append(("context", tid, runs[tid], dict(ctx.message.labels)))
+            plan = calls[int(tid[1:])]["plan"]
+            if runs[tid] <= len(plan):
+                if plan[runs[tid] - 1] == "retry":
                     raise ValueError("again")
                 await ctx.requeue()
             return 1
@@ -145,37 +153,50 @@ def run_roundtrip(c: Dict[str, Any]) -> Outcome:
         t.__module__ = __name__
         b.register_task(t, task_name="t")
         r = Receiver(b, max_async_tasks=5, run_startup=False)
-        await AsyncKicker("t", b, dict(decl)).with_labels(**extra).with_task_id("T").kiq()
+        for n, cl in enumerate(calls):
+            await AsyncKicker("t", b, dict(decl)).with_labels(**cl["extra"]).with_task_id(f"T{n}").kiq()
         deliveries = 0
-        while b.q and deliveries < 10:
+        while b.q and deliveries < 20:
             deliveries += 1
             await r.callback(b.q.pop(0).message)
-        res = None
-        if await b.result_backend.is_result_ready("T"):
-            res = await b.result_backend.get_result("T")
-        return seen, runs[0], res, deliveries
+        results = {}
+        for n in range(len(calls)):
+            if await b.result_backend.is_result_ready(f"T{n}"):
+                results[f"T{n}"] = await b.result_backend.get_result(f"T{n}")
+        return seen, runs, results, deliveries
 
-    seen, runs, res, deliveries = asyncio.run(go())
-    if runs != len(plan) + 1:
-        kind = plan[runs - 1] if 0 < runs <= len(plan) else "?"
-        out.add("C09.c" if kind == "requeue" else "C09.b",
-                f"the task ran {runs} time(s), expected {len(plan) + 1}: the {kind} after execution #{runs} did not arrive "
-                f"(message lost or undecodable); labels={short(want, 200)} codec={c['codec']}")
-    if res is not None and runs == len(plan) + 1 and not res.is_err:
-        seen.append(("result", runs, dict(res.labels)))
-    elif runs == len(plan) + 1:
-        out.add("C09.a", f"no successful result stored after the last delivery (is_err={getattr(res, 'is_err', None)})")
-    for where, n, got in seen:
-        how = "first" if n == 1 else plan[n - 2]
-        clause = "C09.a" if how == "first" else ("C09.b" if how == "retry" else "C09.c")
-        for k, v in want.items():
-            if k not in got:
-                out.add(clause, f"{where} on delivery #{n} (after {how}): label {k!r} missing; sent {v!r}")
-            elif not same(got[k], v):
-                out.add(clause, f"{where} on delivery #{n} (after {how}): label {k!r} = {got[k]!r} ({type(got[k]).__name__}), sent {v!r} ({type(v).__name__}); codec={c['codec']}")
-    types = {type(v).__name__ for v in want.values()}
-    out.nontrivial = bool(len(types) >= 3 or plan)
-    out.classes = [c["codec"], f"types={len(types)}", "plan=" + ("+".join(plan) or "none")] + sorted("has_" + t for t in types)
+    seen, runs, results, deliveries = asyncio.run(go())
+    for n, cl in enumerate(calls):
+        tid = f"T{n}"
+        plan = cl["plan"]
+        want = {**decl, **cl["extra"]}
+        nrun = runs.get(tid, 0)
+        if nrun != len(plan) + 1:
+            kind = plan[nrun - 1] if 0 < nrun <= len(plan) else "?"
+            out.add("C09.c" if kind == "requeue" else "C09.b",
+                    f"call {n}: the task ran {nrun} time(s), expected {len(plan) + 1}: the {kind} after execution #{nrun} did not arrive "
+                    f"(message lost or undecodable); labels={short(want, 200)} codec={c['codec']}")
+        res = results.get(tid)
+        obs = [(w, k, g) for (w, t_, k, g) in seen if t_ == tid]
+        if res is not None and nrun == len(plan) + 1 and not res.is_err:
+            obs.append(("result", nrun, dict(res.labels)))
+        elif nrun == len(plan) + 1:
+            out.add("C09.a", f"call {n}: no successful result stored after the last delivery (is_err={getattr(res, 'is_err', None)})")
+        for where, k, got in obs:
+            how = "first" if k == 1 else (plan[k - 2] if k - 2 < len(plan) else "?")
+            clause = "C09.a" if how == "first" else ("C09.b" if how == "retry" else "C09.c")
+            for key, v in want.items():
+                if key not in got:
+                    out.add(clause, f"call {n}: {where} on delivery #{k} (after {how}): label {key!r} missing; sent {v!r}")
+                elif not same(got[key], v):
+                    out.add(clause, f"call {n}: {where} on delivery #{k} (after {how}): label {key!r} = {got[key]!r} ({type(got[key]).__name__}), sent {v!r} ({type(v).__name__}); codec={c['codec']}")
+            foreign = set(got) - set(want) - SYSTEM
+            if foreign:
+                out.add("C09.d", f"call {n}: {where} on delivery #{k} (after {how}) carries labels {sorted(foreign)} that were never given to this call "
+                                 f"(sent {sorted(want)}; other call(s): {[sorted(x['extra']) for m, x in enumerate(calls) if m != n]})")
+    types = {type(v).__name__ for cl in calls for v in {**decl, **cl["extra"]}.values()}
+    out.nontrivial = bool(len(types) >= 3 or allplans)
+    out.classes = [c["codec"], f"types={len(types)}", "plan=" + ("+".join(calls[0]["plan"]) or "none")] + sorted("has_" + t for t in types) + (["two_calls"] if len(calls) > 1 else [])
     out.trace = {"runs": runs, "deliveries": deliveries}
     return out
 
